@@ -75,6 +75,10 @@ pub struct Case {
     pub names: Vec<DName>,
     pub series: Vec<Series>,
     pub ops: Vec<OpRaw>,
+    /// lazy stratum: the workbook is saved, reopened with `read_reader(.., false)` and only
+    /// these sheets (monotone picks, possibly none) are materialised before the history
+    #[serde(default)]
+    pub lazy: Option<Vec<u16>>,
 }
 
 // ---------------------------------------------------------------------------------------
@@ -162,6 +166,7 @@ fn case_strategy(clean: bool, n_cells: (usize, usize), n_names: (usize, usize), 
         prop::collection::vec(op_raw(), 1..=6),
     )
         .prop_map(move |(sheets, cells, mut names, series, mut ops)| {
+            let lazy = None;
             if focus {
                 for o in ops.iter_mut() {
                     if o.sheet % 10 < 7 {
@@ -176,7 +181,7 @@ fn case_strategy(clean: bool, n_cells: (usize, usize), n_names: (usize, usize), 
                     }
                 }
             }
-            Case { clean, sheets, cells, names, series, ops }
+            Case { clean, sheets, cells, names, series, ops, lazy }
         })
         .boxed()
 }
@@ -189,6 +194,14 @@ fn names_cases(_t: Tier) -> BoxedStrategy<Case> {
 }
 fn series_cases(_t: Tier) -> BoxedStrategy<Case> {
     case_strategy(true, (0, 1), (0, 0), (1, 2))
+}
+fn lazy_cases(_t: Tier) -> BoxedStrategy<Case> {
+    (case_strategy(true, (1, 3), (0, 2), (0, 0)), prop::collection::vec(any::<u16>(), 0..=2))
+        .prop_map(|(mut c, l)| {
+            c.lazy = Some(l);
+            c
+        })
+        .boxed()
 }
 fn dirty_cases(_t: Tier) -> BoxedStrategy<Case> {
     case_strategy(false, (0, 3), (0, 2), (0, 1))
@@ -236,6 +249,8 @@ pub struct Resolved {
     pub series: Vec<(usize, Vec<(usize, Area)>)>,
     pub edits: Vec<(usize, Edit)>,
     pub excluded: Vec<String>,
+    /// Some = lazy stratum: sheets to materialise before the history
+    pub lazy: Option<Vec<usize>>,
 }
 
 impl Resolved {
@@ -435,7 +450,13 @@ pub fn resolve(c: &Case) -> Resolved {
         cell.1 = pos;
         taken.push((host, pos));
     }
-    Resolved { sheets, cells, names, series, edits, excluded }
+    let lazy = c.lazy.as_ref().map(|v| {
+        let mut l: Vec<usize> = v.iter().map(|p| pick_idx(*p, n)).collect();
+        l.sort();
+        l.dedup();
+        l
+    });
+    Resolved { sheets, cells, names, series, edits, excluded, lazy }
 }
 
 // ---------------------------------------------------------------------------------------
@@ -446,6 +467,10 @@ pub struct Observed {
     /// defined names / series as read back before the history (baseline)
     pub names0: Vec<Option<String>>,
     pub series0: Vec<Option<Vec<String>>>,
+    /// lazy stratum: formulas as an eager reload of the saved file shows them
+    pub cells0: Vec<Option<String>>,
+    /// lazy stratum: saving / reloading failed (not this property's subject)
+    pub setup_failed: Option<String>,
     pub cells: Vec<Option<String>>,
     pub names: Vec<Option<String>>,
     pub series: Vec<Option<Vec<String>>>,
@@ -455,10 +480,36 @@ fn address_text(sheets: &[String], parts: &[(usize, Area)]) -> Vec<String> {
     parts.iter().map(|(s, a)| format!("{}{}", Qual::plain(&sheets[*s]).text(), a.text())).collect()
 }
 
-fn read_name(book: &umya_spreadsheet::Spreadsheet, holder: usize, i: usize) -> Option<String> {
+/// a defined name by its name, wherever it is held (a reload re-homes global names)
+fn read_name(book: &umya_spreadsheet::Spreadsheet, _holder: usize, i: usize) -> Option<String> {
     let nm = format!("nm_{}", i);
-    let list = if holder == WORKBOOK { book.get_defined_names() } else { book.get_sheet(&holder).unwrap().get_defined_names() };
-    list.iter().find(|d| d.get_name() == nm).map(|d| d.get_address())
+    for k in 0..book.get_sheet_count() {
+        if let Some(d) = book.get_sheet(&k).unwrap().get_defined_names().iter().find(|d| d.get_name() == nm) {
+            return Some(d.get_address());
+        }
+    }
+    book.get_defined_names().iter().find(|d| d.get_name() == nm).map(|d| d.get_address())
+}
+
+fn read_cell(book: &umya_spreadsheet::Spreadsheet, host: usize, i: usize) -> Option<String> {
+    let tag = format!("tag-{}", i);
+    let ws = book.get_sheet(&host).unwrap();
+    let found: Vec<String> = ws.get_cell_collection().into_iter().filter(|c| c.get_value() == tag.as_str()).map(|c| c.get_formula().to_string()).collect();
+    if found.len() == 1 {
+        Some(found[0].clone())
+    } else {
+        None
+    }
+}
+
+fn read_series(book: &mut umya_spreadsheet::Spreadsheet, holder: usize) -> Option<Vec<String>> {
+    let ws = book.get_sheet_mut(&holder).unwrap();
+    let charts = ws.get_chart_collection_mut();
+    if charts.len() == 1 {
+        Some(charts[0].get_plot_area_mut().get_formula_mut().into_iter().map(|f| f.get_address_str()).collect())
+    } else {
+        None
+    }
 }
 
 pub fn run_workbook(r: &Resolved, texts: &[String]) -> Result<Observed, PanicInfo> {
@@ -498,17 +549,46 @@ pub fn run_workbook(r: &Resolved, texts: &[String]) -> Result<Observed, PanicInf
             book.get_sheet_mut(holder).unwrap().add_chart(chart);
         }
         let mut obs = Observed::default();
-        for (i, (holder, _)) in r.names.iter().enumerate() {
-            obs.names0.push(read_name(&book, *holder, i));
-        }
-        for (holder, _) in r.series.iter() {
-            let ws = book.get_sheet_mut(holder).unwrap();
-            let charts = ws.get_chart_collection_mut();
-            if charts.len() == 1 {
-                let v: Vec<String> = charts[0].get_plot_area_mut().get_formula_mut().into_iter().map(|f| f.get_address_str()).collect();
-                obs.series0.push(Some(v));
-            } else {
-                obs.series0.push(None);
+        if let Some(materialise) = &r.lazy {
+            // save, reload eagerly for the baseline, reload lazily for the run; a failure of
+            // this set-up (save / load defects) is not this property's subject
+            let saved = guard(|| {
+                let mut bytes: Vec<u8> = Vec::new();
+                umya_spreadsheet::writer::xlsx::write_writer(&book, &mut bytes).map_err(|e| format!("save: {:?}", e))?;
+                let eager = umya_spreadsheet::reader::xlsx::read_reader(std::io::Cursor::new(bytes.clone()), true).map_err(|e| format!("reload: {:?}", e))?;
+                let lazy = umya_spreadsheet::reader::xlsx::read_reader(std::io::Cursor::new(bytes), false).map_err(|e| format!("lazy reload: {:?}", e))?;
+                Ok::<_, String>((eager, lazy))
+            });
+            let (mut eager, lazy_book) = match saved {
+                Ok(Ok(x)) => x,
+                Ok(Err(e)) => {
+                    obs.setup_failed = Some(e);
+                    return obs;
+                }
+                Err(p) => {
+                    obs.setup_failed = Some(format!("panic {}", p.short()));
+                    return obs;
+                }
+            };
+            for (i, (host, _, _, _)) in r.cells.iter().enumerate() {
+                obs.cells0.push(read_cell(&eager, *host, i));
+            }
+            for (i, (holder, _)) in r.names.iter().enumerate() {
+                obs.names0.push(read_name(&eager, *holder, i));
+            }
+            for (holder, _) in r.series.iter() {
+                obs.series0.push(read_series(&mut eager, *holder));
+            }
+            book = lazy_book;
+            for k in materialise {
+                book.read_sheet(*k);
+            }
+        } else {
+            for (i, (holder, _)) in r.names.iter().enumerate() {
+                obs.names0.push(read_name(&book, *holder, i));
+            }
+            for (holder, _) in r.series.iter() {
+                obs.series0.push(read_series(&mut book, *holder));
             }
         }
         for (s, e) in &r.edits {
@@ -520,24 +600,17 @@ pub fn run_workbook(r: &Resolved, texts: &[String]) -> Result<Observed, PanicInf
                 Edit::RemoveCols { at, n } => book.remove_column_by_index(name, at, n),
             }
         }
+        if r.lazy.is_some() {
+            book.read_sheet_collection();
+        }
         for (i, (host, _at, _e, _b)) in r.cells.iter().enumerate() {
-            let tag = format!("tag-{}", i);
-            let ws = book.get_sheet(host).unwrap();
-            let found: Vec<String> = ws.get_cell_collection().into_iter().filter(|c| c.get_value() == tag.as_str()).map(|c| c.get_formula().to_string()).collect();
-            obs.cells.push(if found.len() == 1 { Some(found[0].clone()) } else { None });
+            obs.cells.push(read_cell(&book, *host, i));
         }
         for (i, (holder, _)) in r.names.iter().enumerate() {
             obs.names.push(read_name(&book, *holder, i));
         }
         for (holder, _) in r.series.iter() {
-            let ws = book.get_sheet_mut(holder).unwrap();
-            let charts = ws.get_chart_collection_mut();
-            if charts.len() == 1 {
-                let v: Vec<String> = charts[0].get_plot_area_mut().get_formula_mut().into_iter().map(|f| f.get_address_str()).collect();
-                obs.series.push(Some(v));
-            } else {
-                obs.series.push(None);
-            }
+            obs.series.push(read_series(&mut book, *holder));
         }
         obs
     })
@@ -568,7 +641,7 @@ fn attempt_cell(r: &Resolved, host: usize, at: (u32, u32), e: &Expr, blanks: &[u
     let own = r.edits_on(host);
     let all: Vec<Edit> = r.edits.iter().map(|(_, e)| *e).collect();
     let at = (0..200u32).map(|k| (at.0 + k * 7, at.1 + k * 11)).find(|c| survives(*c, &own) && survives(*c, &all)).unwrap_or(at);
-    let single = Resolved { sheets: r.sheets.clone(), cells: vec![(host, at, e.clone(), blanks.to_vec())], names: vec![], series: vec![], edits: r.edits.clone(), excluded: vec![] };
+    let single = Resolved { sheets: r.sheets.clone(), cells: vec![(host, at, e.clone(), blanks.to_vec())], names: vec![], series: vec![], edits: r.edits.clone(), excluded: vec![], lazy: None };
     let lib = run_workbook(&single, &[text.clone()]).map(|o| match &o.cells[0] {
         Some(s) => Ok(s.clone()),
         None => Err("formula cell deleted by the history".to_string()),
@@ -768,7 +841,7 @@ fn panic_part(r: &Resolved, kind: &str, holder: Option<usize>, parts: &[(usize, 
 
 /// a defined name alone (classifier)
 fn attempt_name(r: &Resolved, holder: usize, parts: &[(usize, Area)]) -> Option<(String, String)> {
-    let single = Resolved { sheets: r.sheets.clone(), cells: vec![], names: vec![(holder, parts.to_vec())], series: vec![], edits: r.edits.clone(), excluded: vec![] };
+    let single = Resolved { sheets: r.sheets.clone(), cells: vec![], names: vec![(holder, parts.to_vec())], series: vec![], edits: r.edits.clone(), excluded: vec![], lazy: None };
     match run_workbook(&single, &[]) {
         Err(p) => {
             let i = panic_part(r, "defined-name", Some(holder), parts);
@@ -799,7 +872,7 @@ fn judge_name(r: &Resolved, holder: usize, parts: &[(usize, Area)], observed: &O
 }
 
 fn attempt_series(r: &Resolved, holder: usize, parts: &[(usize, Area)]) -> Option<(String, String)> {
-    let single = Resolved { sheets: r.sheets.clone(), cells: vec![], names: vec![], series: vec![(holder, parts.to_vec())], edits: r.edits.clone(), excluded: vec![] };
+    let single = Resolved { sheets: r.sheets.clone(), cells: vec![], names: vec![], series: vec![(holder, parts.to_vec())], edits: r.edits.clone(), excluded: vec![], lazy: None };
     match run_workbook(&single, &[]) {
         Err(p) => {
             let i = panic_part(r, "chart-series", None, parts);
@@ -960,6 +1033,23 @@ fn check(c: &Case, obs: &mut Obs) -> Verdict {
         obs.excluded(x.clone());
     }
     label(c, &r, obs);
+    let v = check_inner(&r, obs);
+    if r.lazy.is_some() {
+        obs.class(format!("lazy:materialised-{}-of-{}", r.lazy.as_ref().unwrap().len(), r.sheets.len()));
+        if let Verdict::Fail { key, detail } = &v {
+            // the same workbook and history without the save / lazy reload
+            let eager = Resolved { lazy: None, ..r.clone() };
+            let mut o2 = Obs::default();
+            if matches!(check_inner(&eager, &mut o2), Verdict::Pass) {
+                return Verdict::fail(format!("lazy-load/{}", key.rsplit('/').next().unwrap_or("altered")), detail.clone());
+            }
+        }
+    }
+    v
+}
+
+fn check_inner(r: &Resolved, obs: &mut Obs) -> Verdict {
+    let r = r.clone();
     // render + harness self-check
     let mut texts = Vec::new();
     let mut inputs = Vec::new();
@@ -977,7 +1067,22 @@ fn check(c: &Case, obs: &mut Obs) -> Verdict {
     // judge every object of the combined run
     let mut first_fail: Option<(String, String)> = None;
     if let Ok(o) = &whole {
+        if let Some(why) = &o.setup_failed {
+            obs.class(format!("lazy:setup-failed:{}", why.split(':').next().unwrap_or("")));
+            return Verdict::Pass;
+        }
+    }
+    if let Ok(o) = &whole {
         for (i, (host, at, e, b)) in r.cells.iter().enumerate() {
+            if r.lazy.is_some() {
+                // the reloaded file must show the generated formula, else the save/load
+                // path (C01/C03) changed it and this cell is not judged here
+                let same = o.cells0[i].as_ref().and_then(|t| lex(t).ok()).map_or(false, |l| first_mismatch(&inputs[i], &l).is_none());
+                if !same {
+                    obs.class("lazy:formula-changed-by-reload");
+                    continue;
+                }
+            }
             let Some(out) = &o.cells[i] else {
                 obs.class("formula-cell-deleted");
                 continue;
@@ -1057,6 +1162,7 @@ fn subs() -> Vec<Box<dyn DynSub>> {
         Box::new(Sub { name: "cells", strategy: cells_cases, cases: (2200, 30_000), check, max_shrink_iters: 2500 }),
         Box::new(Sub { name: "defined-names", strategy: names_cases, cases: (1000, 12_000), check, max_shrink_iters: 2500 }),
         Box::new(Sub { name: "chart-series", strategy: series_cases, cases: (600, 8_000), check, max_shrink_iters: 2500 }),
+        Box::new(Sub { name: "lazy", strategy: lazy_cases, cases: (500, 8_000), check, max_shrink_iters: 1500 }),
         Box::new(Sub { name: "dirty", strategy: dirty_cases, cases: (400, 5_000), check, max_shrink_iters: 2500 }),
     ]
 }
